@@ -277,7 +277,13 @@ func callsOnTwo(g *Grammar, in []byte) (int, int) {
 	bt := Build(g, nil)
 	root := combinator.Sentence(bt.Root)
 	parsley.Parse(e1.ctx, root)
+	// a third context over the first one's reader and file set, used next
+	ctx3 := parsley.NewContext(e1.fs, e1.rd)
+	parsley.Parse(ctx3, root)
 	parsley.Parse(e2.ctx, root)
+	if ctx3.CallCount() != e1.ctx.CallCount() {
+		return e1.ctx.CallCount(), ctx3.CallCount()
+	}
 	return e1.ctx.CallCount(), e2.ctx.CallCount()
 }
 
